@@ -61,7 +61,10 @@ func c16History(k *fw.K, B, D, O int) {
 	var fc *layers.FC
 	var err error
 	if p := call(func() {
-		fc, err = layers.NewFC(&layers.FCConfig{Inputs: D, Outputs: O, Initializers: map[string]layers.Initializer{"Weight": fixedInit{w}, "Bias": fixedInit{b}}})
+		conf := &layers.FCConfig{Inputs: D, Outputs: O, Initializers: map[string]layers.Initializer{"Weight": fixedInit{w}, "Bias": fixedInit{b}}}
+		fc, err = layers.NewFC(conf)
+		conf.Inputs, conf.Outputs = 99, 99 // the caller's config and its map are overwritten after construction
+		conf.Initializers["Weight"], conf.Initializers["Bias"] = nil, nil
 	}); p != nil || err != nil {
 		k.Failf("NewFC(%d -> %d): panic=%v err=%v", D, O, p, err)
 		return
